@@ -19,6 +19,10 @@ CHECK = {
     "quick_deadline": 100,
     "thorough_deadline": 1200,
     "parts": [{"name": "photon-loop", "bin": "c01_photon", "share": 9.0},
-              {"name": "packet-split", "bin": "c01_split", "share": 1.0}],
+              {"name": "packet-split", "bin": "c01_split", "share": 1.0},
+              # ThreadSanitizer audit of the same loops running free (decides nothing, lists assumption gaps)
+              {"name": "tsan-audit", "bin": "c01_tsan_audit", "needs": ["c01_tsan_run", "c01_photon", "c07_hydroloop"],
+               "share": 1.0, "tiers": ["thorough"]}],
+    "uses_parts": ["C07"],
     "assumptions": [],
 }
